@@ -237,6 +237,27 @@ func genKeySpec(t *tape.Tape) *KeySpec {
 		ks.Pair = nil
 		ks.Desc += " (curve of another key type)"
 	}
+	if ks.Kty == refcose.KtyOKP && ks.Crv != nil && t.Bool(1, 12, "keyspec.okp.sibling") {
+		// a genuine key on one of the OKP curves this library has no code for
+		// (Ed448: 57 octets, X448: 56, X25519: 32), well-formed and of its
+		// curve's own size, alg absent or naming EdDSA as the Edwards curves
+		// do: a consistent key the library cannot use - it may refuse it or
+		// hand out nothing for it, never build an Ed25519 object from it
+		sib := [][2]int64{{refcose.CrvEd448, 57}, {refcose.CrvX448, 56}, {refcose.CrvX25519, 32}, {refcose.CrvEd448, 32}}[t.Choose(4, "keyspec.okp.sibling.v")]
+		c := sib[0]
+		ks.Crv = &c
+		if ks.X != nil {
+			ks.X = t.Bytes(int(sib[1]), "keyspec.okp.sibling.x")
+		}
+		if ks.D != nil {
+			ks.D = t.Bytes(int(sib[1]), "keyspec.okp.sibling.d")
+		}
+		if c != refcose.CrvEd448 || t.Bool(1, 2, "keyspec.okp.sibling.noalg") {
+			ks.Alg = nil
+		}
+		ks.Pair = nil
+		ks.Desc += " (OKP curve without code in this library)"
+	}
 	if t.Bool(1, 8, "keyspec.extra.text") {
 		ks.Extra = append(ks.Extra, KV{refcbor.Tstr("x-" + genText(t, 6)), genValue(t, 1)})
 	}
